@@ -228,6 +228,9 @@ def word_worker(args):
         cfg = args
         out = {"cfg": cfg, "problems": [], "events": 0}
         specrun.quiet()
+        import upword
+
+        upword.COMPRESS = cfg["seed"] % 4 == 1 and not cfg.get("gram")  # classes stored compressed, with a colliding hash
         root, pack, db = specrun.build(cfg)
         rec = Recorder(pack)
         raw = []
@@ -235,13 +238,45 @@ def word_worker(args):
         db = logging_db(type(db), [rec.hook, lambda _db, st, en, ru: raw.append((st, tuple(en), ru))], **kw)
         s = CombinatorialSpecificationSearcher(root, pack, ruledb=db, expand_verified=cfg["expand_verified"])
         specrun.quiet()
-        try:
-            for _ in range(400):
-                wp = next(s.classqueue)
-                if s.expand_verified or not s.ruledb.is_verified(wp.label):
-                    s._expand(s.classdb.get_class(wp.label), wp.label, wp.strategies, wp.inferral)
-        except StopIteration:
-            pass
+        # the universe is built through each of the library's own driving loops: packet by packet, auto_search's timed
+        # expansion loop (under the tick clock, with a limit) and do_level
+        how = cfg["seed"] % 3
+        out["driver"] = ["packets", "auto_search", "do_level"][how]
+        if how == 0:
+            try:
+                for _ in range(400):
+                    wp = next(s.classqueue)
+                    if s.expand_verified or not s.ruledb.is_verified(wp.label):
+                        s._expand(s.classdb.get_class(wp.label), wp.label, wp.strategies, wp.inferral)
+            except StopIteration:
+                pass
+        elif how == 1:
+            import comb_spec_searcher.comb_spec_searcher as css_mod
+            from comb_spec_searcher.exception import ExceededMaxtimeError, SpecificationNotFound
+
+            real, st = css_mod.time, random.getstate()
+            css_mod.time = specrun.TickClock()
+            random.seed(cfg["seed"])
+            try:
+                s.auto_search(perc=cfg["perc"], max_expansion_time=1500)
+            except (ExceededMaxtimeError, SpecificationNotFound):
+                pass
+            except RuntimeError as exc:
+                if "Can't find a rule for ForestRuleKey" not in str(exc):  # the C11 key->rule finding
+                    raise
+            finally:
+                css_mod.time = real
+                random.setstate(st)
+                specrun.quiet()
+        else:
+            from comb_spec_searcher.exception import NoMoreClassesToExpandError
+
+            try:
+                for _ in range(4):
+                    if s.do_level():
+                        break
+            except NoMoreClassesToExpandError:
+                pass
         rec.final(s)
         stored_keys_clean(s, raw, rec.problems)
         out["problems"] = rec.problems
@@ -253,6 +288,9 @@ def word_worker(args):
         return {"cfg": args, "problems": [("searcher-raises", specrun.exc_info(exc))], "events": 0}
     finally:
         signal.alarm(0)
+        import upword
+
+        upword.COMPRESS = False
 
 
 def run(tier, seed, factor=1):
